@@ -585,9 +585,9 @@ package bkl
 //@   property C02
 //@   modifies Document.Data[doc], Document.Parents[patch]
 //@   requires (not (= doc patch))
-//@   ensures (= (isErr err) (mergeErr (old (Document.Data doc)) (old (Document.Data patch))))                                   [C02]
+//@   ensures (= (isErr err) (mergeErr (old (Document.Data doc)) (old (Document.Data patch))))                                   [C02] [C01]
 //@   ensures (=> (isErr err) (and (= (heap Document.Data) (old (heap Document.Data))) (= (heap Document.Parents) (old (heap Document.Parents)))))   [C02]
-//@   ensures (=> (not (isErr err)) (= (heap Document.Data)                                                                     [C02]
+//@   ensures (=> (not (isErr err)) (= (heap Document.Data)                                                                     [C02] [C01]
 //@              (store (old (heap Document.Data)) doc (mergeF (old (Document.Data doc)) (old (Document.Data patch))))))
 //@   ensures (=> (not (isErr err)) (= (heap Document.Parents)                                                                  [C02]
 //@              (store (old (heap Document.Parents)) patch (rapp (old (Document.Parents patch)) (RCons doc RNil)))))
@@ -740,6 +740,8 @@ package bkl
 //@     invariant (and (>= f (old allocTop)) (< f allocTop))
 //@     invariant (= (file.depth f) (ite (= child 0) 0 (+ (file.depth child) 1)))
 //@     invariant (forall ((r Int)) (=> (< r (old allocTop)) (= (file.depth r) (old (file.depth r)))))
+//@   at call NewDocumentWithData#1
+//@     assert (and (=> (decShape elem) (canon doc)) (=> ((_ is VI64) elem) (= doc (VInt (lv elem)))))            [C04]
 //
 //@ func Parser.loadFileAndParents(p, path, child) (res, err)
 //@   property C03
